@@ -159,7 +159,9 @@ def audit_props(pid, thorough=False):
     # build the module (and the lemma modules it imports) …
     rcb, outb, errb = run(["lake", "build", "BroodModel.Props." + pid], cwd=LEAN, timeout=3000)
     if rcb != 0:
-        res["errors"].append("lake build BroodModel.Props.%s failed: %s" % (pid, (outb + errb)[-1500:]))
+        tb = outb + errb
+        errl = [l.strip() for l in tb.splitlines() if re.search(r"\berror\b", l) and "Lean exited" not in l and "build failed" not in l]
+        res["errors"].append("lake build BroodModel.Props.%s failed: %s" % (pid, " | ".join(errl[:6])[:1200] or tb[-1500:]))
     # … and re-elaborate the property file itself to collect `#print axioms`
     rc, out, err = run(["lake", "env", "lean", path], cwd=LEAN, timeout=1500)
     text = out + err
